@@ -264,8 +264,7 @@ def histCmd (args : String) : String :=
     let hs := s.handles.map fun h =>
       match h with
       | .fresh k _ _ => s!"fresh:{k}"
-      | .shared p => s!"shared:{p}:{s.table.factor p}"
-    s!"{join "," hs} table={s.table.fx},{s.table.fy},{s.table.fz} clean={noSharedScale ⟨SparseTable.init, []⟩ ops}"
+    s!"{join "," hs} table={s.table.fx},{s.table.fy},{s.table.fz}"
 
 def dispatch (line : String) : String :=
   let l := trim line
